@@ -6,6 +6,7 @@
    Then: clean-build equations for well-formed repositories, the closed theorems used by Props/C31.v,
    exactly-once, progress, and the counterexample without the lock. *)
 From PlzV Require Import Base.Harness Base.StrFacts Model.C31.
+From PlzV Require Gen.LockProtocol.
 From Coq Require Import Lia.
 
 (* ------------------------------------------------------------------------------------------ *)
@@ -112,7 +113,11 @@ Section Safety.
     I_out : forall i, st_n key st <= i -> i_cur (st_inv key st i) = [];
     I_cover : forall i t, In t (todo0 i) ->
               In t (i_todo (st_inv key st i)) \/ In t (curl (st_inv key st i)) \/ In (t_label t) (i_done (st_inv key st i));
-    I_frame : forall l, (forall i t, In t (todo0 i) -> t_label t <> l) -> st_store key st l = s0 l
+    I_frame : forall l, (forall i t, In t (todo0 i) -> t_label t <> l) -> st_store key st l = s0 l;
+    (* a command that some invocation ran is done there, was run once, and by nobody else *)
+    I_ran_done : forall i l, In l (i_ran (st_inv key st i)) -> In l (i_done (st_inv key st i));
+    I_ran_once : forall i, NoDup (i_ran (st_inv key st i));
+    I_ran_excl : forall i j l, In l (i_ran (st_inv key st i)) -> In l (i_ran (st_inv key st j)) -> i = j
   }.
 
   (* ---- facts about good / trust ---- *)
@@ -218,6 +223,8 @@ Section Safety.
     - (* the command will run: t is in flight *)
       assert (Hd_same : forall j', i_done (st_inv key (set_both key st (st_store key st) i iv') j') = i_done (st_inv key st j')).
       { intros j'. rewrite inv_at. destruct (Nat.eqb_spec j' i) as [->|?]; reflexivity. }
+      assert (Hr_same : forall j', i_ran (st_inv key (set_both key st (st_store key st) i iv') j') = i_ran (st_inv key st j')).
+      { intros j'. rewrite inv_at. destruct (Nat.eqb_spec j' i) as [->|?]; reflexivity. }
       assert (Hnew : forall j' t', In t' (curl (st_inv key (set_both key st (st_store key st) i iv') j')) ->
                      (j' = i /\ t' = t) \/ In t' (curl (st_inv key st j'))).
       { intros j' t' Hin'. unfold curl in *. rewrite inv_at in Hin'. destruct (Nat.eqb_spec j' i) as [->|?]; [|right; exact Hin'].
@@ -249,11 +256,16 @@ Section Safety.
         * right. left. right. exact Hb.
         * right. right. exact Hc.
       + intros l0 Hl0. exact (I_frame st HI l0 Hl0).
+      + intros j l0 Hin. rewrite Hr_same in Hin. rewrite Hd_same. apply (I_ran_done st HI). exact Hin.
+      + intros j. rewrite Hr_same. apply (I_ran_once st HI).
+      + intros j j' l0 H1 H2. rewrite Hr_same in H1, H2. apply (I_ran_excl st HI j j' l0 H1 H2).
     - (* up to date: reused, nothing is written *)
       assert (Hgood : good (st_store key st) t).
       { apply reuse_good; [exact (I_trust st HI)|exact HtR|exact Hnb|exact Hdone]. }
       assert (Hc_same : forall j', curl (st_inv key (set_both key st (st_store key st) i iv') j') = curl (st_inv key st j')).
       { intros j'. unfold curl. rewrite inv_at. destruct (Nat.eqb_spec j' i) as [->|?]; reflexivity. }
+      assert (Hr_same : forall j', i_ran (st_inv key (set_both key st (st_store key st) i iv') j') = i_ran (st_inv key st j')).
+      { intros j'. rewrite inv_at. destruct (Nat.eqb_spec j' i) as [->|?]; reflexivity. }
       assert (Hd_new : forall j' l0, In l0 (i_done (st_inv key (set_both key st (st_store key st) i iv') j')) ->
                          (j' = i /\ l0 = t_label t) \/ In l0 (i_done (st_inv key st j'))).
       { intros j' l0 Hin. rewrite inv_at in Hin. destruct (Nat.eqb_spec j' i) as [->|?]; [|right; exact Hin].
@@ -282,6 +294,9 @@ Section Safety.
         * right. left. exact Hb.
         * right. right. apply Hd_mono. exact Hc.
       + intros l0 Hl0. exact (I_frame st HI l0 Hl0).
+      + intros j l0 Hin. rewrite Hr_same in Hin. apply Hd_mono. apply (I_ran_done st HI). exact Hin.
+      + intros j. rewrite Hr_same. apply (I_ran_once st HI).
+      + intros j j' l0 H1 H2. rewrite Hr_same in H1, H2. apply (I_ran_excl st HI j j' l0 H1 H2).
   Qed.
 
   (* ---- Move ---- *)
@@ -298,6 +313,8 @@ Section Safety.
     { intros j'. unfold curl. rewrite inv_at. destruct (Nat.eqb_spec j' i) as [->|?]; [|reflexivity].
       cbn [iv' i_cur]. apply curl_markc. }
     assert (Hd_same : forall j', i_done (st_inv key (set_both key st s' i iv') j') = i_done (st_inv key st j')).
+    { intros j'. rewrite inv_at. destruct (Nat.eqb_spec j' i) as [->|?]; reflexivity. }
+    assert (Hr_same : forall j', i_ran (st_inv key (set_both key st s' i iv') j') = i_ran (st_inv key st j')).
     { intros j'. rewrite inv_at. destruct (Nat.eqb_spec j' i) as [->|?]; reflexivity. }
     assert (Ht_same : forall j', i_todo (st_inv key (set_both key st s' i iv') j') = i_todo (st_inv key st j')).
     { intros j'. rewrite inv_at. destruct (Nat.eqb_spec j' i) as [->|?]; reflexivity. }
@@ -318,6 +335,9 @@ Section Safety.
     + intros j t0 Hin0. rewrite Hc_same, Hd_same, Ht_same. apply (I_cover st HI). exact Hin0.
     + intros l0 Hl0. cbn [st_store set_both]. unfold s'. rewrite upd_other; [apply (I_frame st HI); exact Hl0|].
       intros He. apply (Hl0 i t A). symmetry. exact He.
+    + intros j l0 Hin. rewrite Hr_same in Hin. rewrite Hd_same. apply (I_ran_done st HI). exact Hin.
+    + intros j. rewrite Hr_same. apply (I_ran_once st HI).
+    + intros j j' l0 H1 H2. rewrite Hr_same in H1, H2. apply (I_ran_excl st HI j j' l0 H1 H2).
   Qed.
 
   (* ---- End ---- *)
@@ -356,6 +376,12 @@ Section Safety.
     assert (Hd_mono : forall j' l0, In l0 (i_done (st_inv key st j')) ->
                         In l0 (i_done (st_inv key (set_both key st s' i iv') j'))).
     { intros j' l0 Hin. rewrite inv_at. destruct (Nat.eqb_spec j' i) as [->|?]; [right; exact Hin|exact Hin]. }
+    assert (Hr_new : forall j' l0, In l0 (i_ran (st_inv key (set_both key st s' i iv') j')) ->
+                       (j' = i /\ l0 = t_label t) \/ In l0 (i_ran (st_inv key st j'))).
+    { intros j' l0 Hin. rewrite inv_at in Hin. destruct (Nat.eqb_spec j' i) as [->|?]; [|right; exact Hin].
+      cbn [iv' i_ran] in Hin. destruct Hin as [<-|Hin]; [left; split; reflexivity|right; exact Hin]. }
+    assert (Hfresh : forall j', ~ In (t_label t) (i_ran (st_inv key st j'))).
+    { intros j' Hin. apply (C j'). apply (I_ran_done st HI). exact Hin. }
     constructor.
     + exact (I_n st HI).
     + cbn [st_store set_both]. unfold s'. apply trust_upd_run; [exact (I_trust st HI)|exact HtR|exact Ha].
@@ -382,6 +408,16 @@ Section Safety.
       * right. right. apply Hd_mono. exact Hc.
     + intros l0 Hl0. cbn [st_store set_both]. unfold s'. rewrite upd_other; [apply (I_frame st HI); exact Hl0|].
       intros He. apply (Hl0 i t A). symmetry. exact He.
+    + intros j l0 Hin. destruct (Hr_new j l0 Hin) as [[-> ->]|Hin0].
+      * rewrite inv_at, Nat.eqb_refl. cbn [iv' i_done]. left. reflexivity.
+      * apply Hd_mono. apply (I_ran_done st HI). exact Hin0.
+    + intros j. rewrite inv_at. destruct (Nat.eqb_spec j i) as [->|?]; [|apply (I_ran_once st HI)].
+      cbn [iv' i_ran]. constructor; [apply Hfresh|apply (I_ran_once st HI)].
+    + intros j j' l0 H1 H2. destruct (Hr_new j l0 H1) as [[-> E1]|H1'], (Hr_new j' l0 H2) as [[-> E2]|H2'].
+      * reflexivity.
+      * exfalso. apply (Hfresh j'). rewrite <- E1. exact H2'.
+      * exfalso. apply (Hfresh j). rewrite <- E2. exact H1'.
+      * apply (I_ran_excl st HI j j' l0 H1' H2').
   Qed.
 
   Lemma step_inv st e st' : Inv st -> stepL st e = Some st' -> Inv st'.
@@ -404,7 +440,7 @@ Section Safety.
 
   Lemma init_inv todos : trust s0 -> n0 = length todos -> (forall i, todo0 i = nth i todos []) -> Inv (init key s0 todos).
   Proof.
-    intros Htr Hn Htd. constructor; cbn [init st_n st_store st_inv i_todo i_cur i_done i_failed].
+    intros Htr Hn Htd. constructor; cbn [init st_n st_store st_inv i_todo i_cur i_done i_failed i_ran].
     - symmetry. exact Hn.
     - exact Htr.
     - intros i l [].
@@ -414,6 +450,9 @@ Section Safety.
     - reflexivity.
     - intros i t Hin. left. rewrite <- Htd. exact Hin.
     - reflexivity.
+    - intros i l [].
+    - intros i. constructor.
+    - intros i j l [].
   Qed.
 
   (* what the invariant gives when every process has exited *)
@@ -518,6 +557,30 @@ End Clean.
 (* ------------------------------------------------------------------------------------------ *)
 (* the closed theorems *)
 
+Lemma forallb_false_ex {A} (f : A -> bool) l : forallb f l = false -> exists x, In x l /\ f x = false.
+Proof.
+  induction l as [|a l IH]; cbn [forallb]; intros Hf; [discriminate|].
+  destruct (f a) eqn:Ea.
+  - destruct (IH Hf) as (x & Hin & Hx). exists x. split; [right; exact Hin|exact Hx].
+  - exists a. split; [left; reflexivity|exact Ea].
+Qed.
+
+Lemma first_with (P : target -> bool) : forall ts, (exists x, In x ts /\ P x = true) ->
+  exists pre t post, ts = pre ++ t :: post /\ P t = true /\ forall y, In y pre -> P y = false.
+Proof.
+  induction ts as [|a ts IH]; intros (x & Hin & Hp); [destruct Hin|].
+  destruct (P a) eqn:Ea.
+  - exists [], a, ts. split; [reflexivity|]. split; [exact Ea|]. intros y [].
+  - destruct Hin as [->|Hin]; [congruence|].
+    destruct (IH (ex_intro _ x (conj Hin Hp))) as (pre & t & post & -> & Ht & Hpre).
+    exists (a :: pre), t, post. split; [reflexivity|]. split; [exact Ht|].
+    intros y [<-|Hy]; [exact Ea|apply Hpre; exact Hy].
+Qed.
+
+(* a request list contains the dependencies of its targets (what `plan` computes) *)
+Definition deps_closed (ts : list target) : Prop :=
+  forall t d, In t ts -> In d (t_deps t) -> exists td, In td ts /\ t_label td = d.
+
 Section Closed.
   Variable key : Type.
   Variable key_eqb : key -> key -> bool.
@@ -598,6 +661,75 @@ Section Closed.
       assert (E1 : st_store key st1 l = s0 l).
       { apply Hfr1. intros ts t [<-|[]] Hint <-. apply Hnin1. apply in_map. exact Hint. }
       unfold sval. rewrite E, E1. reflexivity.
+  Qed.
+  (* no command runs twice: not in one process, not in two *)
+  Theorem c31_at_most_once todos sched : requests_ok act r todos ->
+    let st := run key key_eqb H act true sched (init key s0 todos) in
+    (forall i, NoDup (i_ran (st_inv key st i)))
+    /\ (forall i j l, In l (i_ran (st_inv key st i)) -> In l (i_ran (st_inv key st j)) -> i = j).
+  Proof.
+    intros Hreq st. pose proof (reach_inv todos sched Hreq) as HI. fold st in HI. split.
+    - apply (I_ran_once _ _ _ _ _ _ _ _ _ HI).
+    - apply (I_ran_excl _ _ _ _ _ _ _ _ _ HI).
+  Qed.
+  (* PROGRESS: no deadlock.  In every reachable state in which some process has not exited, some
+     event is enabled (a lock is held across one target build only, and that build needs no other lock) *)
+  Theorem c31_no_deadlock todos sched : requests_ok act r todos -> (forall ts, In ts todos -> deps_closed ts) ->
+    let st := run key key_eqb H act true sched (init key s0 todos) in
+    finished key st = false -> exists e, step key key_eqb H act true st e <> None.
+  Proof.
+    intros Hreq Hcl st Hnf. pose proof (reach_inv todos sched Hreq) as HI. fold st in HI.
+    pose proof (I_n _ _ _ _ _ _ _ _ _ HI) as Hn.
+    destruct (existsb (fun i => match i_cur (st_inv key st i) with [] => false | _ => true end) (seq 0 (st_n key st))) eqn:Hex.
+    - apply existsb_exists in Hex. destruct Hex as (i & Hi & Hc). apply in_seq in Hi.
+      assert (Hlt : Nat.ltb i (st_n key st) = true) by (apply Nat.ltb_lt; lia).
+      destruct (i_cur (st_inv key st i)) as [|[t b] rest] eqn:Ecur; [discriminate|]. destruct b.
+      + exists (End i (t_label t)). cbn [step]. rewrite Hlt. unfold step_end. cbv zeta. rewrite Ecur. cbn [find fst snd].
+        unfold has_label at 1. rewrite str_eqb_refl. cbn [andb fst].
+        destruct (gather _ _); [destruct (act _ _)|]; discriminate.
+      + exists (Move i (t_label t)). cbn [step]. rewrite Hlt. unfold step_move. cbv zeta. rewrite Ecur. cbn [find fst snd].
+        unfold has_label at 1. rewrite str_eqb_refl. cbn [andb negb]. discriminate.
+    - assert (Hnocur : forall j, i_cur (st_inv key st j) = []).
+      { intros j. destruct (Nat.lt_ge_cases j (st_n key st)) as [Hj|Hj]; [|apply (I_out _ _ _ _ _ _ _ _ _ HI); exact Hj].
+        assert (Hin : In j (seq 0 (st_n key st))) by (apply in_seq; lia).
+        pose proof (existsb_false _ _ Hex j Hin) as Hx. cbv beta in Hx.
+        destruct (i_cur (st_inv key st j)); [reflexivity|discriminate]. }
+      unfold finished in Hnf. apply forallb_false_ex in Hnf. destruct Hnf as (i & Hi & Hfi). apply in_seq in Hi.
+      assert (Hlt : Nat.ltb i (st_n key st) = true) by (apply Nat.ltb_lt; lia).
+      unfold inv_finished in Hfi. rewrite (Hnocur i) in Hfi.
+      destruct (i_todo (st_inv key st i)) as [|a todo'] eqn:Etodo; [discriminate|]. clear Hfi.
+      assert (Htodo_r : forall x, In x (i_todo (st_inv key st i)) -> In x r).
+      { intros x Hx. apply (todo0_of todos Hreq i x). apply (I_todo _ _ _ _ _ _ _ _ _ HI i x Hx). }
+      set (P := fun x : target => mem (t_label x) (map t_label (i_todo (st_inv key st i)))).
+      destruct (first_with P r) as (pre & t & post & Hr & HPt & Hpre).
+      { exists a. split; [apply Htodo_r; rewrite Etodo; left; reflexivity|].
+        unfold P. apply mem_In. apply in_map. rewrite Etodo. left. reflexivity. }
+      assert (HtR : In t r) by (rewrite Hr; apply in_or_app; right; left; reflexivity).
+      assert (Htodo : In t (i_todo (st_inv key st i))).
+      { unfold P in HPt. apply mem_In in HPt. apply in_map_iff in HPt. destruct HPt as (t' & Hl' & Hin').
+        assert (t' = t) by (apply wf_labels_inj; [apply Htodo_r; exact Hin'|exact HtR|exact Hl']). subst t'. exact Hin'. }
+      assert (Ht0 : In t (nth i todos [])) by (apply (I_todo _ _ _ _ _ _ _ _ _ HI i t Htodo)).
+      assert (Hts : In (nth i todos []) todos) by (apply nth_In; lia).
+      exists (Begin i (t_label t)). cbn [step]. rewrite Hlt. unfold step_begin. cbv zeta.
+      destruct (find (has_label (t_label t)) (i_todo (st_inv key st i))) as [t'|] eqn:Hf.
+      2: { exfalso. pose proof (find_none _ _ Hf t Htodo) as Hx. unfold has_label in Hx. rewrite str_eqb_refl in Hx. discriminate. }
+      apply find_some in Hf. destruct Hf as [Hin' Hl']. apply has_label_eq in Hl'.
+      assert (t' = t) by (apply wf_labels_inj; [apply Htodo_r; exact Hin'|exact HtR|exact Hl']). subst t'.
+      assert (Hdeps : forallb (fun d => mem d (i_done (st_inv key st i)) || mem d (i_failed (st_inv key st i))) (t_deps t) = true).
+      { apply forallb_forall. intros d Hd. apply orb_true_iff. left. apply mem_In.
+        destruct (Hcl _ Hts t d Ht0 Hd) as (td & Htd & Hld).
+        destruct (I_cover _ _ _ _ _ _ _ _ _ HI i td Htd) as [Ha|[Hb|Hc]].
+        - exfalso. pose proof Hwf as Hwf'. unfold wf_repo in Hwf'. apply andb_prop in Hwf'. destruct Hwf' as [_ Htopo].
+          destruct (topo_spec _ _ Htopo pre t post Hr d Hd) as [[]|Hp].
+          apply in_map_iff in Hp. destruct Hp as (y & Hly & Hy). pose proof (Hpre y Hy) as HPy. unfold P in HPy.
+          apply mem_false in HPy. apply HPy. rewrite Hly, <- Hld. apply in_map. exact Ha.
+        - unfold curl in Hb. rewrite Hnocur in Hb. destruct Hb.
+        - rewrite Hld in Hc. exact Hc. }
+      rewrite Hdeps. cbn [negb]. rewrite (I_nofail _ _ _ _ _ _ _ _ _ HI i). rewrite existsb_mem_nil. cbn [andb].
+      assert (Hlk : locked key st (t_label t) = false).
+      { unfold locked. destruct (existsb _ (seq 0 (st_n key st))) eqn:E; [|reflexivity].
+        apply existsb_exists in E. destruct E as (j & _ & Hh). unfold holds in Hh. rewrite Hnocur in Hh. discriminate. }
+      rewrite Hlk. destruct (needs_build key key_eqb H (st_store key st) t); discriminate.
   Qed.
 End Closed.
 
@@ -698,3 +830,45 @@ Lemma ex_nonvacuous :
   /\ sval ckey (st_store ckey ex_done) (s "//p:b") = Some [(s "b.out", s "x" ++ nl)]
   /\ i_ran (st_inv ckey ex_done 0) = [s "//p:a"] /\ i_ran (st_inv ckey ex_done 1) = [s "//p:b"].
 Proof. vm_compute. repeat split; reflexivity. Qed.
+
+(* ------------------------------------------------------------------------------------------ *)
+(* the events of the model against the source (Gen/LockProtocol.v is regenerated by gotrans from
+   build_step.go, lock.go, please.go, build_target.go on every run):
+   - the target lock is the FIRST watched call of buildTarget's local branch, on target.BuildLockFile(),
+     released only by the defer (held until buildTarget returns), never taken or released again;
+   - needsBuilding is asked under it (Begin); the command runs before moveOutputs (Move); the record
+     is written after moveOutputs (End);
+   - the lock is an exclusive flock and the caller BLOCKS until it gets it;
+   - an ordinary invocation takes the repo lock in SHARED mode only (invocations are not serialised). *)
+
+Definition str_in (x : String.string) (l : list String.string) : bool := existsb (String.eqb x) l.
+Fixpoint after_call (x : String.string) (l : list String.string) : list String.string :=
+  match l with
+  | [] => []
+  | y :: rest => if String.eqb x y then rest else after_call x rest
+  end.
+
+Local Open Scope string_scope.
+Definition protocol_ok : bool :=
+  match LockProtocol.build_calls with
+  | a :: b :: rest =>
+      String.eqb a "AcquireExclusiveFileLock" && String.eqb b "defer ReleaseFileLock"
+      && negb (str_in "AcquireExclusiveFileLock" rest) && negb (str_in "ReleaseFileLock" rest)
+      && negb (str_in "defer ReleaseFileLock" rest)
+      && str_in "needsBuilding" rest
+      && str_in "moveOutputs" (after_call "build" rest)
+      && str_in "calculateAndCheckRuleHash" (after_call "moveOutputs" rest)
+  | _ => false
+  end
+  && String.eqb LockProtocol.target_lock_arg "target.BuildLockFile()"
+  && String.eqb LockProtocol.target_lock_file "target.TmpDir() + lockFileSuffix"
+  && String.eqb LockProtocol.target_lock_mode "syscall.LOCK_EX"
+  && list_eqb String.eqb LockProtocol.open_then_lock ["openLockFile"; "acquireFileLock"]
+  && str_in "how" LockProtocol.flock_modes
+  && String.eqb LockProtocol.shared_repo_lock_mode "syscall.LOCK_SH"
+  && list_eqb String.eqb LockProtocol.run_please_repo_locks ["AcquireSharedRepoLock"].
+
+Local Close Scope string_scope.
+
+Lemma lock_protocol_ok : protocol_ok = true.
+Proof. vm_compute. reflexivity. Qed.
